@@ -22,7 +22,7 @@ except Exception as e:  # import of the package under test failed, etc.
 WRITE_OPS = {"AddPage", "AddPages", "AddLinks", "IndexBatchCrawl"}
 WE_OPS = {"CreateWe", "DeleteWe", "DeleteWeNC", "AddPrefix", "RemovePrefix", "MovePrefix"}
 RULE_OPS = {"AddRule", "RemoveRule"}
-LIFE_OPS = {"Init", "Reopen", "Clear", "Recreate"}
+LIFE_OPS = {"Init", "Reopen", "Clear", "Recreate", "ClearKeep"}
 ALL_OPS = WRITE_OPS | WE_OPS | RULE_OPS | LIFE_OPS
 
 BASE_PROFILE = {"nlrus": 14, "long": 0.35, "raw": 0.2, "prefixy": 0.25, "adversarial": 0.0}
@@ -125,7 +125,7 @@ reg("C10", exc_ops=set(), nontrivial=nt_links, hook="paglinks", obs_fail=False,
     profile={"raw": 0.0, "long": 0.2, "nlrus": 16, "extend": 0.2, "continue": 0.8, "concentrate": 1,
              "homelinks": 0.45}, steps=(24, 32), n=(160, 2000),
     title="Pagelink pagination")
-reg("C11", exc_ops={"Reopen", "Clear", "Recreate"}, nontrivial=nt_pages, hook="life",
+reg("C11", exc_ops={"Reopen", "Clear", "Recreate", "ClearKeep"}, nontrivial=nt_pages, hook="life",
     roles=[("file", ()), ("file", ("Reopen",))], pairname="C11.twin", prefixes=["C11."],
     weights={"Reopen": 24, "Clear": 5, "Recreate": 3, "AddRule": 8, "CreateWe": 16, "DeleteWe": 6, "AddPage": 26},
     profile={"raw": 0.1, "long": 0.3, "nlrus": 12}, n=(60, 600), steps=(16, 24), title="Close/reopen/clear")
